@@ -52,7 +52,7 @@ class C05(core.Check):
             'Expectation from the zone model: REJECT iff a positive-size line leaves its zone or GLOBAL or a declared zone is '
             'invalid; else the image must equal the model map. distinct_nontrivial = distinct (layout kind, switch means, '
             'boundary class, expectation) tuples.')
-    assumptions = ('predefined zones lie inside GLOBAL here (zones sticking out of a redefined GLOBAL: DONT_CARE)',
+    assumptions = ('in the generated layouts predefined zones lie inside GLOBAL; zones reaching beyond a redefined GLOBAL have a directed family of their own',
                    'an origin or alignment that parks the cursor outside a zone without placing a byte there is DONT_CARE')
     chunk = 1000
     required_buckets = {b: 3 for b in [
@@ -60,7 +60,7 @@ class C05(core.Check):
         'org:zone-offset-0', 'org:zone-offset-last', 'org:zone-offset-past', 'org:bare-after-zone', 'org:GLOBAL-relative',
         'same-zone>=3-stretches', 'create:valid', 'create:outside-global', 'create:duplicate', 'create:inverted',
         'create:beyond-width', 'layout:global-redefined', 'layout:overlapping', 'layout:adjacent', 'layout:nested',
-        'include-from-zone', 'include-from-zone-then-continue', 'org:zone-offset-negative', 'org:bare-literal-inside-selected-zone', 'zerountil-in-zone', 'zone-switch-in-unselected-branch', 'isa-zone:inverted', 'isa-zone:beyond-width', 'inverted-by-1', 'expect:ACCEPT', 'expect:REJECT']}
+        'include-from-zone', 'include-from-zone-then-continue', 'org:zone-offset-negative', 'org:bare-literal-inside-selected-zone', 'zerountil-in-zone', 'zone-switch-in-unselected-branch', 'isa-zone:inverted', 'isa-zone:beyond-width', 'inverted-by-1', 'expect:ACCEPT', 'expect:REJECT', 'isa-zone:reaches-beyond-redefined-GLOBAL', 'isa-zone:reaches-above', 'isa-zone:reaches-below']}
 
     def build(self, rng, directed=None):
         addr_bits = rng.choice([8, 10, 12, 16])
@@ -329,9 +329,45 @@ class C05(core.Check):
             rng = core.rng_for(0 if i < n_pre else seed, self.pid, i)
             d = ['at-end', 'past-end', None, 'org-past', 'org-below', 'bare-org-into-zone'][i % 6] if i < n_pre else rng.choice(['at-end', 'past-end', 'org-past', 'org-below', 'bare-org-into-zone', None, None, None])
             yield self.build(rng, d)
+        yield from self.sticking_out_cases()
         for i in range(140 if tier == 'quick' else 1400):
             rng = core.rng_for(0 if i < 140 else seed, self.pid, 'inv', i)
             yield self.invalid_zone_cases(rng, i)
+
+    def sticking_out_cases(self):
+        """a zone predefined by the configuration may reach beyond a redefined GLOBAL zone; bytes may not"""
+        for ab in (12, 16):
+            for side, (zs, ze) in (('above', (0x1F0, 0x20F)), ('below', (0x0F0, 0x10F)), ('around', (0x0F8, 0x208))):
+                isa = gen_prog.layout_isa(ab, global_zone=(0x100, 0x1FF), origin=0x100, zones=[{'name': 'ZX', 'start': zs, 'end': ze}])
+                fn, text = isamod.render_isa(isa, 'json')
+                for first, n in ((0x1FC, 4), (0x1FD, 4), (0x1FF, 1), (0x1FF, 2), (0x200, 1), (0x100, 2), (0x0FF, 1), (0x0FF, 2), (0x0FE, 1), (zs, 1)):
+                    if not (zs <= first and first + n - 1 <= ze):
+                        continue
+                    inside = 0x100 <= first and first + n - 1 <= 0x1FF
+                    for via in ('zone-org', 'fill-up-to'):
+                        if via == 'zone-org':
+                            body = ['.memzone ZX', f'.org {first - zs} "ZX"', '.byte ' + ', '.join(str(0x41 + k_) for k_ in range(n))]
+                            M_ = {first + k_: 0x41 + k_ for k_ in range(n)}
+                        else:
+                            if first == zs or first - zs > 40:
+                                pad = []
+                                M_ = {}
+                                body = ['.memzone ZX', f'.org {first - zs} "ZX"']
+                            else:
+                                body = ['.memzone ZX', f'.fill {first - zs}, $EE']
+                                M_ = {zs + k_: 0xEE for k_ in range(first - zs)}
+                                inside = inside and zs >= 0x100
+                            body += ['.byte ' + ', '.join(str(0x41 + k_) for k_ in range(n))]
+                            M_.update({first + k_: 0x41 + k_ for k_ in range(n)})
+                        kind = 'ACCEPT' if inside else 'REJECT'
+                        img = layout.image(M_, 0xE0, None, 0).hex() if inside else None
+                        yield {'runs': [{'files': {fn: text, 'p.asm': '\n'.join(body) + '\n'},
+                                         'argv': ['compile', '-c', fn, 'p.asm', '-o', 'out.bin', '-s', str(0xE0)],
+                                         'probes': ['steps', 'cursor'], 'step_limit': 400000}],
+                               'meta': {'kind': kind, 'why': f'bytes {first:#x}..{first + n - 1:#x} with GLOBAL 0x100..0x1ff', 'image': img},
+                               'tags': sorted({'isa-zone:reaches-beyond-redefined-GLOBAL', 'isa-zone:reaches-' + side, 'expect:' + kind,
+                                               'boundary:one-past-global-end' if (not inside and first + n - 1 == 0x200) else
+                                               'boundary:ends-at-global-end' if (inside and first + n - 1 == 0x1FF) else 'boundary:other'})}
 
     def judge(self, case, outcomes):
         o = outcomes[0]
